@@ -86,7 +86,11 @@ where
                 pw = pw.mul(&xd);
             }
             let term = pw.mul(&d(c[i + 1])).mul_u64(i as u64 + 1);
-            if !in_range(&pw, 900) || !in_range(&term, 900) || (c[i + 1] != 0.0 && d(c[i + 1]).top() < -1000) {
+            // besides every term (i+1)c·x^i and power of x, every derivative COEFFICIENT must be in range: the
+            // intermediates of any Horner/Estrin-like scheme are partial sums divided by a power of x and contain
+            // the bare coefficient (e.g. d4 + d5·x overflows for d4 = MAX although d4·x^4 is moderate)
+            let coef = d(c[i + 1]).mul_u64(i as u64 + 1);
+            if !in_range(&pw, 900) || !in_range(&term, 900) || !in_range(&coef, 900) || (c[i + 1] != 0.0 && d(c[i + 1]).top() < -1000) {
                 in_dom = false;
             }
         }
